@@ -94,3 +94,6 @@ META = dict(
     assumptions=C01.META["assumptions"] + ["histories: one candle per append and two candles per append; prefixes: every k"],
     explanation="every snapshot of a live history and every batch over a prefix compared leaf-by-leaf (terms) with the final state, for all candle values of each feasible path",
 )
+
+# families added after the seeding rounds (kept next to the original bound so that MANIFEST / evidence stay current)
+META["bounds"] = dict(META["bounds"], quick=META["bounds"]["quick"] + "; added after the seeding rounds: " + 'the streams of C01 (40-second grid, two-bucket hole when gap filling is on, live-long feeds, long windows, doji wrapper)')
